@@ -125,11 +125,18 @@ theorem C16_text_roundtrip_chars (s : List Char) (chunks : List Bytes)
 
 /-! ## `_iter_chunks`, `content_from_stream`, `content_from_file` -/
 
-/-- C16 (chunk loop): for every chunk size ≥ 1 the chunks read from the remaining bytes are non-empty, at most
-`chunk_size` long, and concatenate to exactly those bytes (no off-by-one when the length is a multiple). -/
-theorem C16_iter_chunks (n : Nat) (hn : 1 ≤ n) (rem : Bytes) :
-    (chunks n rem).flatten = rem ∧ ∀ c ∈ chunks n rem, c ≠ [] ∧ c.length ≤ n :=
-  ⟨chunks_flatten n hn rem, chunks_good n rem⟩
+/-- C16 (chunk loop): for every chunk size ≥ 1 and EVERY short-read plan (a raw stream may return fewer bytes than
+asked for before end of file; each read returns at least one byte while data remains) the loop "read until an
+empty read" terminates — every non-empty read consumes a byte — and its chunks are non-empty, at most
+`chunk_size` long, and concatenate to exactly the remaining bytes (no off-by-one when the length is a multiple,
+nothing dropped after a short read). -/
+theorem C16_iter_chunks (n : Nat) (hn : 1 ≤ n) (caps : List Nat) (hc : caps.all (1 ≤ ·) = true) (rem : Bytes) :
+    (chunks n caps rem).flatten = rem ∧ ∀ c ∈ chunks n caps rem, c ≠ [] ∧ c.length ≤ n :=
+  ⟨chunks_flatten n hn caps hc rem, chunks_good n caps rem⟩
+
+/-- a short read is not taken for end of file: after a read that returned fewer than `chunk_size` bytes while more
+remain, the loop reads again (instance of the above; this is what the seeded regression C16-b broke) -/
+example : chunks 4 [3] [1, 2, 3, 4, 5, 6, 7, 8, 9] = [[1, 2, 3], [4, 5, 6, 7], [8, 9]] := by decide
 
 /-- C16 (stream, sizes): in the log of every scenario every chunk handed to the consumer is non-empty and at most
 `chunk_size` long. -/
@@ -145,13 +152,15 @@ theorem C16_stream_chunk_sizes (i : StreamIn) : ∀ c, Ev.chunk c ∈ streamMode
 
 /-- C16 (stream, bytes): whenever the requested seek is one the stream accepts, the first consumption — and every
 consumption of a file or buffered content — completes without error and its chunks concatenate to the bytes from
-the (clamped) seek position to end of file, for both stream kinds, all origins, `buffer_now` or not. -/
-theorem C16_stream_bytes (i : StreamIn) (hn : 1 ≤ i.chunkSize) (p : Nat) (hp : startPos i = some p) :
+the (clamped) seek position to end of file, for both stream kinds, all origins, `buffer_now` or not, and every
+short-read plan of the stream. -/
+theorem C16_stream_bytes (i : StreamIn) (hn : 1 ≤ i.chunkSize) (hc : i.caps.all (1 ≤ ·) = true) (p : Nat)
+    (hp : startPos i = some p) :
     let cons := consumptions (streamModel i)
     let good := fun seg : List Ev => seg.any isDone = true ∧ seg.any isRaised = false
       ∧ (seg.filterMap chunkOf).flatten = (dataOf i).drop p
     (∀ seg ∈ cons.take 1, good seg) ∧ ((i.isFile = true ∨ i.bufferNow = true) → ∀ seg ∈ cons, good seg) := by
-  have h := model_chunkConcat i hn
+  have h := model_chunkConcat i hn hc
   simp only [cChunkConcat, expected, hp, Option.map_some, Bool.and_eq_true] at h
   have hgood : ∀ seg, segOk ((dataOf i).drop p) seg = true →
       seg.any isDone = true ∧ seg.any isRaised = false ∧ (seg.filterMap chunkOf).flatten = (dataOf i).drop p := by
@@ -272,12 +281,11 @@ theorem holds_model_no_ctype (i : Input) (hw : i.wf = true) (hc : ∀ ct, i ≠ 
         cChunkConcat, cLazy, cCtRoundtrip, cSnapshot, wholeRef, h1, h2, h3, decodeAll_latin1, decodeAll_utf8, decodeAll_ascii] <;>
       cases whole <;> simp
   | stream i =>
-    have hn : 1 ≤ i.chunkSize := by
-      have : i.wf = true := hw
-      simp only [StreamIn.wf, Bool.and_eq_true, decide_eq_true_eq] at this
-      exact this.1
+    have hwf : i.wf = true := hw
+    simp only [StreamIn.wf, Bool.and_eq_true, decide_eq_true_eq] at hwf
+    have hn : 1 ≤ i.chunkSize := hwf.1.1
     simp [holds, clauses, model, cShape, cBytes, cEq, cText, cJson, cChunking, cCharset, cCtRoundtrip, cSnapshot,
-      model_chunkSizes i, model_chunkConcat i hn, model_lazy i]
+      model_chunkSizes i, model_chunkConcat i hn hwf.2, model_lazy i]
   | ctype ct => exact absurd rfl (hc ct)
   | copy init ops =>
     simp [holds, clauses, model, cShape, cBytes, cEq, cText, cJson, cChunking, cCharset, cChunkSizes, cChunkConcat, cLazy, cCtRoundtrip, model_snapshot init ops]
